@@ -88,6 +88,10 @@ def const_to_lean(val):
         return (f"(Q.mk ({fr.numerator}) {fr.denominator})", "Q")
     if val is None:
         return ("none", "Opt:_")
+    if isinstance(val, str):
+        if any(ord(ch) > 126 or ord(ch) < 32 or ch in '"\\' for ch in val):
+            raise NotTranslatable("string constant outside printable ASCII")
+        return (f'("{val}".toList)', "Str")
     if isinstance(val, tuple):
         parts = [const_to_lean(v) for v in val]
         return ("[" + ", ".join(p[0] for p in parts) + "]", "List:" + (parts[0][1] if parts else "_"))
@@ -146,6 +150,9 @@ class Fn:
         self.div_sites = []
         self.join_depth = 0
         self.let_bound = set()
+        self.pending = []
+        self.no_raise = 0
+        self.consts = {}
 
     # ---------------------------------------------------------------- expressions
     def truthy(self, e, t):
@@ -159,7 +166,7 @@ class Fn:
             return f"(Option.isSome {par(e)})"
         if t == "Q":
             return f"(!Q.isZero {par(e)})"
-        if t.startswith("List:") or t == "Bytes":
+        if t.startswith("List:") or t in ("Bytes", "Str"):
             return f"(!List.isEmpty {par(e)})"
         raise NotTranslatable(f"truthiness of {t}")
 
@@ -231,6 +238,13 @@ class Fn:
             val = eval(d, self.glob)  # noqa: S307 - evaluating names of the module under translation
         except Exception:
             raise NotTranslatable(f"unbound name {d}")
+        return self.const_value(val)
+
+    def const_value(self, val):
+        if isinstance(val, dict):
+            key = f"d{len(self.consts)}"
+            self.consts[key] = val
+            return (key, "DictConst:" + key)
         return const_to_lean(val)
 
     def expr(self, node, env):
@@ -249,7 +263,13 @@ class Fn:
             return r
         if isinstance(node, ast.BoolOp):
             op = " && " if isinstance(node.op, ast.And) else " || "
-            return ("(" + op.join(self.cond(v, env) for v in node.values) + ")", "Bool")
+            parts = [self.cond(node.values[0], env)]
+            self.no_raise += 1
+            try:
+                parts += [self.cond(v, env) for v in node.values[1:]]
+            finally:
+                self.no_raise -= 1
+            return ("(" + op.join(parts) + ")", "Bool")
         if isinstance(node, ast.UnaryOp):
             if isinstance(node.op, ast.Not):
                 return (f"(!{self.cond(node.operand, env)})", "Bool")
@@ -293,8 +313,12 @@ class Fn:
                 left = right
             return (parts[0] if len(parts) == 1 else "(" + " && ".join(parts) + ")", "Bool")
         if isinstance(node, ast.IfExp):
-            a, ta = self.expr(node.body, env)
-            b, tb = self.expr(node.orelse, env)
+            self.no_raise += 1
+            try:
+                a, ta = self.expr(node.body, env)
+                b, tb = self.expr(node.orelse, env)
+            finally:
+                self.no_raise -= 1
             a, b, t = self.unify(a, ta, b, tb)
             return (f"(if {self.cond(node.test, env)} then {a} else {b})", t)
         if isinstance(node, ast.Tuple):
@@ -357,6 +381,52 @@ class Fn:
                     raise NotTranslatable("struct table key")
                 return (f"{k}", "StructOf:" + d)
         base, tb = self.expr(node.value, env)
+        if tb.startswith("DictConst:") and not isinstance(node.slice, ast.Slice):
+            d = self.consts[tb[10:]]
+            k, tk = self.expr(node.slice, env)
+            vals = [const_to_lean(v) for v in d.values()]
+            vt = vals[0][1] if vals else "Int"
+            if any(is_int_ty(v[1]) for v in vals):
+                if not all(is_int_ty(v[1]) for v in vals):
+                    raise NotTranslatable("dict with mixed value types")
+                vt = "Int"
+                vals = [(as_int(*v), "Int") for v in vals]
+            elif any(v[1] != vt for v in vals):
+                raise NotTranslatable("dict with mixed value types")
+            out = self.default_of(vt) if vt != "Int" else "(0 : Int)"     # KeyError: totalised (the code tests membership first)
+            for kk, (ve, _) in reversed(list(zip(d.keys(), vals))):
+                ke, kt = const_to_lean(kk)
+                c = self.compare(ast.Eq(), (k, tk), (ke, kt))
+                out = f"(if {c} then {ve} else {out})"
+            return (out, vt)
+        if tb == "Str":
+            if isinstance(node.slice, ast.Slice):
+                sl = node.slice
+                if sl.step is not None:
+                    raise NotTranslatable("slice step")
+                lo = sl.lower
+                hi = sl.upper
+                def neg_const(n):
+                    return isinstance(n, ast.UnaryOp) and isinstance(n.op, ast.USub) and isinstance(n.operand, ast.Constant) and isinstance(n.operand.value, int)
+                if lo is None and hi is not None and neg_const(hi):
+                    k = hi.operand.value
+                    return (f"(List.take (List.length {par(base)} - {k}) {par(base)})", "Str")      # s[:-k]
+                if hi is None:
+                    if lo is None:
+                        return (base, "Str")
+                    if neg_const(lo):
+                        raise NotTranslatable("negative slice start")
+                    return (f"(List.drop {par(self.nat_index(lo, env))} {par(base)})", "Str")
+                if neg_const(hi) or (lo is not None and neg_const(lo)):
+                    raise NotTranslatable("negative slice bounds")
+                l = self.nat_index(lo, env) if lo is not None else "0"
+                h = self.nat_index(hi, env)
+                return (f"(List.take ({h} - {l}) (List.drop {par(l)} {par(base)}))", "Str")
+            i = self.nat_index(node.slice, env)
+            return (f"(List.take 1 (List.drop {par(i)} {par(base)}))", "Str")             # s[i]: a string of length 1 (IndexError: totalised to "")
+        if tb == "List:Str" and not isinstance(node.slice, ast.Slice):
+            i = self.nat_index(node.slice, env)
+            return (f"(List.getD {par(base)} {par(i)} [])", "Str")
         if tb == "Bytes":
             if isinstance(node.slice, ast.Slice):
                 if node.slice.step is not None:
@@ -483,6 +553,10 @@ class Fn:
             return a, b, ("Nat" if "Nat" in (ta, tb) else "Flags" if "Flags" in (ta, tb) else "Nat")
         if is_int_ty(ta) and is_int_ty(tb):
             return as_int(a, ta), as_int(b, tb), "Int"
+        if ta == "List:_" and tb.startswith("List:"):
+            return a, b, tb
+        if tb == "List:_" and ta.startswith("List:"):
+            return a, b, ta
         if ta == "Opt:_" and tb.startswith("Opt:"):
             return a, b, tb
         if tb == "Opt:_" and ta.startswith("Opt:"):
@@ -569,6 +643,30 @@ class Fn:
 
     def compare(self, op, l, r):
         (a, ta), (b, tb) = l, r
+        if (ta == "Str" and is_int_ty(tb)) or (tb == "Str" and is_int_ty(ta)):
+            # a str never equals an int in Python (no exception either)
+            if isinstance(op, ast.Eq):
+                return "false"
+            if isinstance(op, ast.NotEq):
+                return "true"
+            raise NotTranslatable("ordering of str and int")
+        if ta == "Str" and tb == "Str":
+            if isinstance(op, ast.Eq):
+                return f"({a} == {b})"
+            if isinstance(op, ast.NotEq):
+                return f"({a} != {b})"
+            if isinstance(op, ast.In):
+                return f"(isInfix {par(a)} {par(b)})"
+            if isinstance(op, ast.NotIn):
+                return f"(!isInfix {par(a)} {par(b)})"
+            raise NotTranslatable("ordering of strings")
+        if ta == "Str" and tb.startswith("DictConst:") and isinstance(op, (ast.In, ast.NotIn)):
+            d = self.consts[tb[10:]]
+            alts = [f"({a} == {const_to_lean(k)[0]})" for k in d.keys() if isinstance(k, str)]
+            if len(alts) != len(d):
+                raise NotTranslatable("dict with non-string keys tested against a string")
+            c = "(" + " || ".join(alts) + ")" if alts else "false"
+            return c if isinstance(op, ast.In) else f"(!{c})"
         if isinstance(op, (ast.Is, ast.IsNot)):
             if b == "none":
                 if not ta.startswith("Opt:"):
@@ -581,6 +679,9 @@ class Fn:
             ea = f"(Option.elim {par(a)} false (fun x => INNER))" if ta.startswith("Opt:") else f"(let x := {a}; INNER)"
             eb = f"(Option.elim {par(b)} false (fun y => {inner}))" if tb.startswith("Opt:") else f"(let y := {b}; {inner})"
             c = ea.replace("INNER", eb)
+            return c if isinstance(op, ast.In) else f"(!{c})"
+        if isinstance(op, (ast.In, ast.NotIn)) and ta == "QSet" and tb == "Opt:QSet":
+            c = f"(Option.elim {par(b)} false (fun y => QSet.subsetOf {par(a)} y))"
             return c if isinstance(op, ast.In) else f"(!{c})"
         if isinstance(op, (ast.In, ast.NotIn)) and ta == "QSet" and tb == "QSet":
             c = f"(QSet.subsetOf {par(a)} {par(b)})"
@@ -635,6 +736,54 @@ class Fn:
                 return (e, t)
             if is_int_ty(t):
                 return (as_int(e, t), "Int")
+        if fname == "int" and len(args) == 1 and not kw:
+            e0, t0 = self.expr(args[0], env)
+            if t0 == "Str":
+                if "ValueError" not in self.t.get("raises", {}) and not getattr(self, "in_try", 0):
+                    raise NotTranslatable("int(str) outside a try that handles ValueError")
+                return self.raising(f"(pyInt? {par(e0)})", "Int")
+        if isinstance(node.func, ast.Attribute):
+            recv_node = node.func.value
+            meth = node.func.attr
+            rd = dotted(recv_node)
+            if meth in ("endswith", "startswith", "partition", "split", "get"):
+                try:
+                    re_, rt = self.expr(recv_node, env)
+                except NotTranslatable:
+                    re_, rt = None, None
+                if rt == "Str" and meth in ("endswith", "startswith") and len(args) == 1 and not kw:
+                    fn_l = "endsWith" if meth == "endswith" else "startsWith"
+                    if isinstance(args[0], ast.Tuple):
+                        alts = []
+                        for x in args[0].elts:
+                            xe, xt = self.expr(x, env)
+                            if xt != "Str":
+                                raise NotTranslatable("startswith of a non-string")
+                            alts.append(f"({fn_l} {par(re_)} {par(xe)})")
+                        return ("(" + " || ".join(alts) + ")", "Bool")
+                    xe, xt = self.expr(args[0], env)
+                    if xt == "Str":
+                        return (f"({fn_l} {par(re_)} {par(xe)})", "Bool")
+                if rt == "Str" and meth in ("partition", "split") and len(args) == 1 and not kw:
+                    if isinstance(args[0], ast.Constant) and isinstance(args[0].value, str) and len(args[0].value) == 1 and 32 <= ord(args[0].value) < 127 and args[0].value not in "'\\":
+                        ch = args[0].value
+                        if meth == "partition":
+                            return (f"(partition '{ch}' {par(re_)})", "Tuple:Str,Bool,Str")
+                        return (f"(split '{ch}' {par(re_)})", "List:Str")
+                    raise NotTranslatable(f"{meth} with a separator that is not one printable character")
+                if rt is not None and rt.startswith("DictConst:") and meth == "get" and len(args) == 1 and not kw:
+                    d = self.consts[rt[10:]]
+                    k, tk = self.expr(args[0], env)
+                    vals = [const_to_lean(v) for v in d.values()]
+                    vt = vals[0][1] if vals else "Int"
+                    if any(v[1] != vt for v in vals):
+                        raise NotTranslatable("dict with mixed value types")
+                    out = "none"
+                    for kk, (ve, _) in reversed(list(zip(d.keys(), vals))):
+                        ke, kt = const_to_lean(kk)
+                        c = self.compare(ast.Eq(), (k, tk), (ke, kt))
+                        out = f"(if {c} then some {ve} else {out})"
+                    return (out, "Opt:" + vt)
         if fname in ("any", "all") and len(args) == 1 and isinstance(args[0], ast.GeneratorExp) and not kw:
             g = args[0]
             if len(g.generators) == 1 and not g.generators[0].is_async:
@@ -733,6 +882,7 @@ class Fn:
             if isinstance(f, types.FunctionType) and (f.__module__ or "").startswith("pyp0f"):
                 return (f, None)
             return None
+
         recv, meth = ".".join(parts[:-1]), parts[-1]
         cls = None
         if recv == "self" and "." in self.t["func"] and not getattr(self, "inlined", False):
@@ -789,6 +939,15 @@ class Fn:
                 raise NotTranslatable(f"unknown keyword {k} for {fname}")
             actual[k] = ("arg", node)
         mod = importlib.import_module(func.__module__)
+        # a closure (`_parse_mss = range_number_parser(min=0, max=65535, wildcard=True)`): its free variables are constants
+        if func.__closure__:
+            for cname, cell in zip(func.__code__.co_freevars, func.__closure__):
+                try:
+                    cval = cell.cell_contents
+                except ValueError:
+                    raise NotTranslatable(f"unbound closure variable {cname}")
+                if cname not in env2:
+                    env2[cname] = self.const_value(cval)
         sub_t = dict(self.t)
         sub_t["ret"] = "Any"
         sub_t["self_class"] = inl[2] if len(inl) > 2 else None
@@ -797,6 +956,8 @@ class Fn:
         sub.inlined = True
         sub.div_sites = self.div_sites
         sub.aux = self.aux
+        sub.consts = self.consts
+        sub.in_try = 0
         for pname in params + list(kwonly):
             if pname in actual:
                 env2[pname] = self.expr(actual[pname][1], env)
@@ -833,11 +994,19 @@ class Fn:
                     pass
                 else:
                     raise NotTranslatable(f"{fname} returns both {rt} and {t}")
-        if "Opt:_" in rts and not rt.startswith("Opt:"):
+        raises_somewhere = any(isinstance(n, ast.Raise) for n in ast.walk(fdef)) or getattr(sub, "used_raising", False)
+        explicit_opt = any(t.startswith("Opt:") for t in conc)
+        if raises_somewhere and explicit_opt:
+            raise NotTranslatable(f"{fname} both returns an optional value and may raise")
+        if ("Opt:_" in rts or raises_somewhere) and not rt.startswith("Opt:"):
             rt = "Opt:" + rt
         sub.t["ret"] = rt
         sub.ret_types = []
+        sub.used_raising = False
         body = sub.block(list(fdef.body), dict(env2), end, 1)
+        if raises_somewhere:
+            # the function returns a plain value or raises: at the call, the exception propagates
+            return self.raising("(" + lets + body.strip() + ")", rt[4:])
         return ("(" + lets + body.strip() + ")", rt)
 
     # ---------------------------------------------------------------- statements
@@ -877,6 +1046,8 @@ class Fn:
             m = self.t.get("raises", {})
             if exc not in m:
                 raise NotTranslatable(f"raise {exc}")
+            if hasattr(self, "ret_types"):
+                self.ret_types.append("Opt:_")
             return pad + self.wrap_ret(m[exc])
         if isinstance(s, ast.FunctionDef):
             if s.decorator_list or s.args.vararg or s.args.kwarg or s.args.kwonlyargs:
@@ -902,6 +1073,16 @@ class Fn:
                             out += f"{pad}let {self.lean_name(x.id)} := {ie}\n"
                             env2[x.id] = (self.lean_name(x.id), it)
                         return out + nxt(env2, ind)
+                    if t == "List:Str":
+                        # a list unpacked into n names (ValueError unless it has exactly n items: the bridging theorem's concern)
+                        tv = f"u{ind}_{len(rest)}"
+                        env2 = dict(env)
+                        out = f"{pad}let {tv} := {e}\n"
+                        for i, x in enumerate(tgt.elts):
+                            out += f"{pad}let {self.lean_name(x.id)} := List.getD {tv} {i} []\n"
+                            env2[x.id] = (self.lean_name(x.id), "Str")
+                            self.let_bound.add(x.id)
+                        return out + nxt(env2, ind)
                     if not t.startswith("Tuple:") or len(split_top(t[6:])) != len(tgt.elts):
                         raise NotTranslatable("unpacking a non-tuple")
                     tv = f"u{ind}_{len(rest)}"
@@ -910,8 +1091,11 @@ class Fn:
                     n = len(tgt.elts)
                     for i, (x, ty) in enumerate(zip(tgt.elts, split_top(t[6:]))):
                         proj = tv + ".2" * i + (".1" if i < n - 1 else "")
+                        if x.id == "_":
+                            continue
                         out += f"{pad}let {self.lean_name(x.id)} := {proj}\n"
                         env2[x.id] = (self.lean_name(x.id), ty)
+                        self.let_bound.add(x.id)
                     return out + nxt(env2, ind)
             else:
                 tgt, val = s.target, s.value
@@ -1021,6 +1205,22 @@ class Fn:
             raise NotTranslatable(f"expression statement {ast.unparse(s)[:60]}")
         if isinstance(s, ast.If):
             return self.if_stmt(s, rest, env, cont, ind)
+        if isinstance(s, ast.Try):
+            m = self.t.get("raises", {})
+            ok = (not s.orelse and not s.finalbody and len(s.handlers) == 1 and s.handlers[0].type is not None
+                  and dotted(s.handlers[0].type) in m and len(s.handlers[0].body) == 1 and isinstance(s.handlers[0].body[0], ast.Raise))
+            if ok:
+                h = s.handlers[0].body[0]
+                exc = dotted(h.exc.func) if isinstance(h.exc, ast.Call) else dotted(h.exc)
+                ok = exc in m and m[exc] == m[dotted(s.handlers[0].type)]
+            if not ok:
+                raise NotTranslatable("try statement other than `except X: raise Y` with X and Y mapped to the same outcome")
+            # the handler turns X into Y and both leave the function the same way: the body is translated in place
+            self.in_try = getattr(self, "in_try", 0) + 1
+            try:
+                return self.block(list(s.body) + list(rest), env, cont, ind)
+            finally:
+                self.in_try -= 1
         if isinstance(s, ast.For):
             return self.for_loop(s, rest, env, cont, ind)
         if isinstance(s, ast.While):
@@ -1143,6 +1343,24 @@ class Fn:
             return self.truthy(e, t)
         raise NotTranslatable(f"cannot convert {t} to {want}")
 
+    def none_value(self):
+        return "none"
+
+    def raising(self, call_text, t):
+        """a call that may raise (its translation has type Option t): bound before the current statement; its value is the temp"""
+        if self.no_raise > 0:
+            raise NotTranslatable("a call that may raise inside a short-circuit / conditional expression")
+        if getattr(self, "cur_ret", None) and str(self.cur_ret).startswith("Option (") and getattr(self, "in_while", 0):
+            raise NotTranslatable("a call that may raise inside a while loop")
+        var = f"r{len(self.pending)}_{self.tmp_counter()}"
+        self.pending.append((var, call_text))
+        self.used_raising = True
+        return (var, t)
+
+    def tmp_counter(self):
+        self._tmp = getattr(self, "_tmp", 0) + 1
+        return self._tmp
+
     def wrap_ret(self, text):
         return f"(Sum.inl {par(text)})" if self.join_depth > 0 else text
 
@@ -1173,12 +1391,25 @@ class Fn:
         # several paths fall through to the rest of the block: join them, carrying the variables assigned inside
         vs = self.assigned_in([s], env)
         def top_assigned(stmts):
+            """names definitely assigned when control falls off the end of `stmts`"""
             out = set()
             for st in stmts:
                 if isinstance(st, (ast.Assign, ast.AugAssign, ast.AnnAssign)):
-                    d = dotted(st.targets[0] if isinstance(st, ast.Assign) else st.target)
-                    if d:
-                        out.add(d)
+                    tgs = st.targets if isinstance(st, ast.Assign) else [st.target]
+                    for tg in tgs:
+                        for x in (tg.elts if isinstance(tg, ast.Tuple) else [tg]):
+                            d = dotted(x)
+                            if d:
+                                out.add(d)
+                elif isinstance(st, ast.If):
+                    a_, b_ = top_assigned(st.body), top_assigned(st.orelse)
+                    fa, fb = Fn.falls(st.body), Fn.falls(st.orelse)
+                    if fa and fb:
+                        out |= (a_ & b_)
+                    elif fa:
+                        out |= a_
+                    elif fb:
+                        out |= b_
             return out
         both = top_assigned(s.body) & top_assigned(s.orelse)
         # temporaries of the branches are poisoned for the code after, unless both branches define them
@@ -1187,6 +1418,8 @@ class Fn:
         names = [self.lean_name(v) for v in vs]
         tup = "(" + ", ".join(names) + ")" if names else "()"
         exits = self.has_exit([s])
+        if not exits and self.t.get("raises") and any(isinstance(n, ast.Call) for n in ast.walk(s)):
+            exits = True        # a call inside may raise: the join has to be able to carry an early exit
         types = {}
 
         def yield_vars(env2, ind2):
@@ -1423,11 +1656,13 @@ class Fn:
             return "  " * ind3 + self.wrap_ret("(some (" + ", ".join(vals(env3)) + "))" if carried else "(some ())")
         saved = (getattr(self, "loop_cont", None), getattr(self, "break_cont", None), self.join_depth, getattr(self, "cur_ret", None))
         self.loop_cont, self.break_cont, self.join_depth, self.cur_ret = again, leave, 0, f"Option ({tup_ty})"
+        self.in_while = getattr(self, "in_while", 0) + 1
         try:
             c = self.cond(s.test, env_in)
             body = self.block(list(s.body), env_in, again, 3)
         finally:
             self.loop_cont, self.break_cont, self.join_depth, self.cur_ret = saved
+            self.in_while -= 1
         args = " ".join(f"({n} : {self.lean_ty(t)})" for n, t in zip(names, tys))
         self.aux[slot] = (
             f"def {aux} {psig} : Nat → " + "".join(f"{par(self.lean_ty(t))} → " for t in tys) + f"Option ({tup_ty})\n"
@@ -1484,6 +1719,20 @@ _orig_block = Fn.block
 
 
 def _block(self, stmts, env, cont, ind):
+    mark = len(self.pending)
+    out = _block_inner(self, stmts, env, cont, ind)
+    if len(self.pending) > mark:
+        # calls that may raise, made while evaluating the first statement: bound in evaluation order around the statement and
+        # everything after it (an exception leaves the function: `none`)
+        mine = self.pending[mark:]
+        del self.pending[mark:]
+        pad = "  " * ind
+        for var, call in reversed(mine):
+            out = f"{pad}Option.elim {par(call)} {self.wrap_ret(self.none_value())} (fun {var} =>\n{out})"
+    return out
+
+
+def _block_inner(self, stmts, env, cont, ind):
     if stmts and isinstance(stmts[0], ast.Continue):
         lc = getattr(self, "loop_cont", None)
         if lc is None:
